@@ -217,6 +217,10 @@ pub fn c01(args: &Args) -> Report {
         s.faults = 1;
         s.k_corrupt = true;
         s.k_drop = true;
+        scns.push(s.clone());
+        // the same with the Null file checksum: the PDU CRC is then the only integrity check
+        s.name = format!("{} null-checksum", s.name);
+        s.null_checksum = true;
         scns.push(s);
     }
     let res = run_all(scns, mk, args.tier);
@@ -290,6 +294,17 @@ pub fn c03(args: &Args) -> Report {
         p.blackout = vec![LinkId::SR, LinkId::RS];
         scns.push(p);
     }
+    // prompts in unacknowledged mode with closure (a prompt there is useless, but a user may issue it)
+    for op in [UserOp::PromptNak, UserOp::PromptKeepAlive] {
+        let mut p = Scenario::base(&format!("c03 unack+closure max_count=2 {:?} + blackout", op));
+        p.ack = false;
+        p.closure = true;
+        p.max_count = 2;
+        p.file_size = Some(17);
+        p.user = vec![(Side::S, op, 1)];
+        p.blackout = vec![LinkId::RS];
+        scns.push(p);
+    }
     // a NAK prompt at every state (also after the receiver has finished or was cancelled)
     for (imm, nm) in [(false, "def0"), (true, "imm0")] {
         let mut p = Scenario::base(&format!("c03 ack nak={} max_count=2 prompt + F=1 du + blackout", nm));
@@ -338,6 +353,14 @@ pub fn c04(args: &Args) -> Report {
             }
         }
     }
+    // a delivery that fails its integrity check (EOF with a wrong checksum / size from a faulty
+    // sender): the sending entity must not report success for it
+    let mut b = Scenario::base("c04 ack modular file size=17 injected bad EOF");
+    b.file_size = Some(17);
+    b.inject = vec![InjectSpec::BadEof { checksum_xor: 1, size_delta: 0 }, InjectSpec::BadEof { checksum_xor: 0, size_delta: -1 }];
+    b.inject_budget = 1;
+    b.inject_before_success = true; // afterwards only PDUs that were really sent may arrive (C04's quantifier)
+    scns.push(b);
     // duplicates instead of stragglers (the link itself re-delivers)
     let mut s = Scenario::base("c04 ack modular file size=17 F=2 du");
     s.file_size = Some(17);
@@ -551,6 +574,13 @@ pub fn c07(args: &Args) -> Report {
         s.k_overtake = true;
         scns.push(s);
     }
+    // user suspend / resume at the sender at every state (the first pass must still tile the file once)
+    let mut sr = Scenario::base("c07 ack size=40 suspend/resume@S + F=1 d");
+    sr.file_size = Some(40);
+    sr.user = vec![(Side::S, UserOp::Suspend, 1), (Side::S, UserOp::Resume, 1)];
+    sr.faults = 1;
+    sr.k_drop = true;
+    scns.push(sr);
     let mut u = Scenario::base("c07 unack size=33 F=1 d");
     u.ack = false;
     u.file_size = Some(33);
@@ -597,6 +627,29 @@ pub fn c08(args: &Args) -> Report {
         s.k_overtake = true;
         s.k_delay = true;
         s.user = vec![(Side::S, UserOp::PromptNak, 1)];
+        scns.push(s);
+    }
+    // user suspend / resume at the receiver at every state (deferred: no NAK before EOF all the same)
+    for (imm, nm) in [(false, "def0"), (true, "imm0")] {
+        let mut s = Scenario::base(&format!("c08 size=33 nak={} suspend/resume@R + F=1 d", nm));
+        s.file_size = Some(33);
+        s.nak_immediate = imm;
+        s.user = vec![(Side::R, UserOp::Suspend, 1), (Side::R, UserOp::Resume, 1)];
+        s.faults = 1;
+        s.k_drop = true;
+        scns.push(s);
+    }
+    // PDUs spaced in time by less than the NAK delay: delayed checks with different due times
+    {
+        let mut s = Scenario::base("c08 size=64 nak=imm5 waits=2x2s F=2 d");
+        s.file_size = Some(64);
+        s.nak_immediate = true;
+        s.nak_delay_s = 5;
+        s.waits = 2;
+        s.wait_ms = 2000;
+        s.faults = 2;
+        s.k_drop = true;
+        s.max_count = 4;
         scns.push(s);
     }
     // several delayed gap checks and the EOF's whole-file check falling due together: the request
